@@ -294,7 +294,7 @@ impl Script {
 
                 Ok(push_data_prefix)
             }
-            op_pushdata4_size if op_pushdata4_size > 0x10000 && op_pushdata4_size <= 0xFFFFFFFF => {
+            op_pushdata4_size if op_pushdata4_size >= 0x10000 && op_pushdata4_size <= 0xFFFFFFFF => {
                 let op_pushdata4_byte = OpCodes::OP_PUSHDATA4
                     .to_u8()
                     .ok_or_else(|| BSVErrors::DeserialiseScript("Unable to deserialise OP_PUSHDATA4 Code to u8".into()))?;
